@@ -115,6 +115,24 @@ def run(ck, facts):
                     if x.get("k") == "if" and x.get("e"):
                         ok_alt = ok_alt or any(y in plus1 for y in C.walk(x["e"]))
                 ck.expect(ok_alt, "R3", "Enum::new/implicit-is-the-None-case", "", "`counter + 1` is not the alternative taken when the variant has no explicit discriminant", C.loc(f))
+                # ... and ONLY then: an explicit discriminant is parsed or refused, it never falls back to `counter + 1` (Some stays Some between
+                # `v.discriminant` and the fallback combinator; the closure that parses it yields a number on every path that does not diverge)
+                only_none = True
+                why_ = ""
+                for x in C.walk(val_init):
+                    if x.get("k") == "mcall" and x.get("m") in ("unwrap_or_else", "unwrap_or", "map_or", "map_or_else") and any(y in plus1 for y in C.walk(x["a"][0])):
+                        r_ = C.strip(x["recv"])
+                        while isinstance(r_, dict) and r_.get("k") == "mcall":
+                            if r_.get("m") not in ("as_ref", "as_mut", "as_deref", "map", "cloned", "copied", "clone", "iter", "next"):
+                                only_none, why_ = False, "`.%s(..)` can turn an explicit discriminant into None" % r_.get("m")
+                            for a_ in r_.get("a") or []:
+                                for y in C.walk(a_):
+                                    if (y.get("k") == "def" and (y.get("p") or "").endswith("option::Option::None")) or (
+                                            y.get("k") == "mcall" and y.get("m") in ("ok", "unwrap_or", "unwrap_or_else", "unwrap_or_default", "and_then", "filter", "then", "then_some")):
+                                        only_none, why_ = False, "the closure handling an explicit discriminant can give up (%s) instead of refusing it" % (y.get("m") or "None")
+                            r_ = C.strip(r_["recv"])
+                ck.expect(only_none, "R3", "Enum::new/explicit-never-falls-back", "", "an explicit discriminant that is not understood silently becomes `%s + 1`: %s -- the enumerator the backends print "
+                          "differs from the value rustc gives the variant" % (counter, why_), C.loc(f))
                 # explicit literal parsed as a whole expression (negatives)
                 parses = C.callees_transitive(core, val_init)
                 ck.expect(any(p.endswith("base10_parse") for p in parses) and any("parse2" in p or p.endswith("syn::parse") for p in parses), "R3", "Enum::new/explicit-literal", "syn::parse2 + base10_parse", "explicit discriminants are no longer parsed as a signed literal (calls: %s)" % [p.split("::")[-1] for p in parses], C.loc(f))
@@ -315,7 +333,15 @@ def run(ck, facts):
     ck.expect(re.search(r"\.value\(\s*\"⟦\s*(\w+)\s*⟧\"\s*,\s*⟦\s*type_name\s*⟧::⟦\s*\1\s*⟧\s*\)", fl) is not None and "discriminant" not in fl and "loop.index" not in fl, "R1", "nanobind/enum_impl/by-name", "", "nanobind enum registration no longer maps names to the C++ enumerators by name", "tool/templates/nanobind/enum_impl.cpp.jinja")
     # cpp FromFFI: cases are the C enumerators, by name
     fl = tmpl.flat_file("cpp/enum_impl.h.jinja", resolve_includes=False)
-    ck.expect(re.search(r"case\s*⟦\s*fmt\.fmt_c_enum_variant\(ctype,\s*\w+\)\s*⟧\s*:", fl) is not None and "static_cast<⟦type_name⟧::Value>(c_enum)" in fl, "R1", "cpp/enum_impl/FromFFI", "", "C++ FromFFI no longer switches over the C enumerators and casts the same value", "tool/templates/cpp/enum_impl.h.jinja")
+    m_case = re.search(r"case\s*⟦\s*fmt\.fmt_c_enum_variant\(ctype,\s*\w+\)\s*⟧\s*:", fl)
+    # ... for every enum: the per-variant switch is not one of two alternatives chosen by a template condition (a shortcut that skips it has to restate,
+    # for each shape it covers, that the accepted values are exactly the variants')
+    m_from = fl.find("::FromFFI(")
+    m_end = fl.find("\n}", m_from) if m_from >= 0 else -1
+    conds_in_fromffi = re.findall(r"⟪\s*(?:if|elif|else)\b[^⟫]*⟫", fl[m_from:m_end]) if m_from >= 0 else ["?"]
+    ck.expect(m_case is not None and not conds_in_fromffi, "R1", "cpp/enum_impl/FromFFI-switch-unconditional", "", "C++ FromFFI validates the incoming value by a per-variant switch only under a template "
+              "condition (%s): for the other enums a value is accepted by a range test, which is the variants' set only when they are 0..N-1" % conds_in_fromffi[:2], "tool/templates/cpp/enum_impl.h.jinja")
+    ck.expect(m_case is not None and "static_cast<⟦type_name⟧::Value>(c_enum)" in fl, "R1", "cpp/enum_impl/FromFFI", "", "C++ FromFFI no longer switches over the C enumerators and casts the same value", "tool/templates/cpp/enum_impl.h.jinja")
     # js runtime: enum discriminants are read as signed 32-bit integers (negative discriminants)
     rtm = C.read_repo("tool/templates/js/runtime.mjs")
     m = re.search(r"export\s+function\s+enumDiscriminant\s*\(\s*wasm\s*,\s*ptr\s*\)\s*\{(.*?)\n\}", rtm, re.S)
